@@ -197,6 +197,12 @@ mod builtins {
     use std::mem;
     use std::sync::Arc;
 
+    /// Upper bound for collections whose size a template argument chooses
+    /// (same limit as `range`).
+    const MAX_FILLED_ITEMS: usize = 100_000;
+    /// Upper bound for indentation widths chosen by a template argument.
+    const MAX_INDENT_WIDTH: usize = 100_000;
+
     /// Converts a value to uppercase.
     ///
     /// ```jinja
@@ -1025,6 +1031,12 @@ mod builtins {
         if count == 0 {
             return Err(Error::new(ErrorKind::InvalidOperation, "count cannot be 0"));
         }
+        if count > MAX_FILLED_ITEMS {
+            return Err(Error::new(
+                ErrorKind::InvalidOperation,
+                "too many slices requested",
+            ));
+        }
         let items = ok!(state.undefined_behavior().try_iter(value)).collect::<Vec<_>>();
         let len = items.len();
         let items_per_slice = len / count;
@@ -1082,14 +1094,16 @@ mod builtins {
         if count == 0 {
             return Err(Error::new(ErrorKind::InvalidOperation, "count cannot be 0"));
         }
+        // `count` comes from the template: only reserve what the input can fill
+        let capacity = count.min(value.len().unwrap_or(0));
         let mut rv = Vec::with_capacity(value.len().unwrap_or(0) / count);
-        let mut tmp = Vec::with_capacity(count);
+        let mut tmp = Vec::with_capacity(capacity);
 
         for item in ok!(state.undefined_behavior().try_iter(value)) {
             if tmp.len() == count {
                 rv.push(Value::from(mem::replace(
                     &mut tmp,
-                    Vec::with_capacity(count),
+                    Vec::with_capacity(capacity),
                 )));
             }
             tmp.push(item);
@@ -1097,6 +1111,12 @@ mod builtins {
 
         if !tmp.is_empty() {
             if let Some(filler) = fill_with {
+                if count - tmp.len() > MAX_FILLED_ITEMS {
+                    return Err(Error::new(
+                        ErrorKind::InvalidOperation,
+                        "batch has too many items to fill",
+                    ));
+                }
                 for _ in 0..count - tmp.len() {
                     tmp.push(filler.clone());
                 }
@@ -1196,6 +1216,12 @@ mod builtins {
         };
         ok!(args.assert_all_used());
         if let Some(indent) = indent {
+            if indent > MAX_INDENT_WIDTH {
+                return Err(Error::new(
+                    ErrorKind::InvalidOperation,
+                    "indentation is too large",
+                ));
+            }
             let indentation = " ".repeat(indent);
             serialize_json(
                 value,
@@ -1277,6 +1303,12 @@ mod builtins {
         };
         ok!(kwargs.assert_all_used());
 
+        if width > MAX_INDENT_WIDTH {
+            return Err(Error::new(
+                ErrorKind::InvalidOperation,
+                "indentation is too large",
+            ));
+        }
         let input = strip_trailing_newline(value.as_str());
         let indent_with = " ".repeat(width);
         let mut output = String::new();
